@@ -93,6 +93,12 @@ def build_bv(tu, unit, workdir, contract_override=None):
 
 
 def _build_bv(tu, unit, workdir, contract_override=None):
+    if getattr(unit, "auto", False) and contract_override is None:
+        # discovery pass: which callees does the extracted body have?  their contracts are generated from the signatures
+        src0, em0 = cxx2c.build_unit(tu, workdir, [unit.target], spec_prelude="")
+        em0.called_funcs = {c: em0.need_funcs[c] for c in em0.called if c in em0.need_funcs}
+        import canon
+        canon.auto_contracts(tu, unit, em0, tu.func(unit.target))
     contracts = dict(unit.contracts)
     if contract_override is not None:
         contracts[unit.target] = contract_override
